@@ -8,6 +8,7 @@ Say(clause, exp, got) ==
   PrintT(ToJson([v |-> "MISMATCH", id |-> Traces[tid].id, l |-> l, op |-> Ev.op, clause |-> clause, exp |-> exp, got |-> got]))
 Check(good, clause, exp, got) == IF good THEN TRUE ELSE Say(clause, exp, got)
 
+Rew(e) == IF "rew" \in DOMAIN e THEN e.rew ELSE <<>>
 StepEv(e) ==
   CASE e.op = "macro" ->
     (LET exp == MacroOutcome(e.targets)
@@ -45,14 +46,18 @@ StepEv(e) ==
             \* the target's range (a mapped link does drive its target; the same fact RVSystem!SysFeed composes)
             plain == e.out_offset = 0 /\ e.gain = 256 /\ e.quant = 32768 /\ e.curve = "default" /\ {e.wmin, e.wmax} = {0, 32768} /\ e.kind = "range"
             g6 == plain /\ g1 /\ g2 => LET a == e.rle[1][1]  b == e.rle[Len(e.rle)][1] IN
-                     IF e.wmin = 0 THEN a = e.lo /\ b = e.hi ELSE a = e.hi /\ b = e.lo IN
+                     IF e.wmin = 0 THEN a = e.lo /\ b = e.hi ELSE a = e.hi /\ b = e.lo
+            \* what reaches the target is a function of the input: the same input fed again after the target was written by hand
+            \* (or by another MultiCtl) delivers the same value again - entries <<input, delivered, delivered after the re-feed>>
+            g7 == \A i \in 1..Len(Rew(e)) : Rew(e)[i][2] = Rew(e)[i][3] IN
         /\ Check(g6, "plain-feed-misses-range-ends", <<e.lo, e.hi>>, <<e.rle[1], e.rle[Len(e.rle)]>>)
+        /\ Check(g7, "same-input-fed-again-after-a-hand-write-not-delivered", "d2 = d1 in <<input, d1, d2>>", Rew(e))
         /\ Check(g1, "delivery-raised", "ok", <<e.outcome, e.bad_input>>)
         /\ Check(g1 => g2, "all-inputs-delivered", 32769, Total(e.rle))
         /\ Check(g3, "delivered-out-of-range", <<e.lo, e.hi>>, e.rle)
         /\ Check(g4, "not-monotone", <<e.wmin, e.wmax>>, e.rle)
         /\ Check(g5, "other-controllers-changed", "unchanged", "changed")
-        /\ ok' = (ok /\ g1 /\ g2 /\ g3 /\ g4 /\ g5 /\ g6))
+        /\ ok' = (ok /\ g1 /\ g2 /\ g3 /\ g4 /\ g5 /\ g6 /\ g7))
   [] OTHER -> Say("unknown-op", "", e.op) /\ ok' = FALSE
 
 Step == /\ l <= Len(Traces[tid].events) /\ StepEv(Ev) /\ l' = l + 1 /\ UNCHANGED tid
